@@ -100,6 +100,52 @@ Lift(ds, mk(_)) ==
     ELSE DSome(mk([i \in DOMAIN ds |-> ds[i].v]))
 
 RECURSIVE Denotes(_, _), DenAny(_)
+
+\* ------------------------------------------------------------------ C03: objects and one-of
+\* "An object schema accepts a mapping exactly when it has no undeclared or non-string keys, every
+\* supplied property is accepted by its type, absent properties that declare a default receive that
+\* default (a supplied value is never overridden), and after defaulting every required, required-if,
+\* required-if-not and conflicts rule holds and no disabled property is in use; a lone non-map value
+\* is accepted only as shorthand for the single property of a one-property object."
+\*
+\* Denotes: the mapping from property to denoted value, defaults filled in.  The constraints
+\* (Presence, disabled) are part of Satisfies below.
+DenObject(s, raw) ==
+    IF raw.k # "map" THEN
+        IF Len(s.props) # 1 THEN DNone
+        ELSE LET d == Denotes(s.props[1].type, raw) IN
+             IF d.d = "some" THEN DSome(ObjValue(s, <<Some(d.v)>>)) ELSE IF d.d = "none" THEN DNone ELSE DOpen
+    ELSE IF \E j \in 1..Len(raw.v) : ~GoStringKey(raw.v[j][1]) THEN DNone              \* a non-string key
+    ELSE IF \E n \in KeyNames(raw) : ~Declares(s, n) THEN DNone                          \* an undeclared key
+    ELSE LET given == [i \in DOMAIN s.props |-> Supplied(raw, s.props[i].name)]
+             eff == [i \in DOMAIN s.props |-> IF given[i].some THEN given[i] ELSE EffectiveDefault(s, s.props[i])]
+             ds == [i \in DOMAIN s.props |-> IF eff[i].some THEN Denotes(s.props[i].type, eff[i].v) ELSE DOpen]
+             present == {i \in DOMAIN s.props : eff[i].some}
+         IN IF \E i \in present : ds[i].d = "none" THEN DNone
+            \* a disabled property that is "in use" only through its own default: the statement is silent
+            ELSE IF \E i \in present : s.props[i].disabled /\ ~given[i].some THEN DOpen
+            ELSE IF \E i \in present : ds[i].d = "open" THEN DOpen
+            ELSE DSome(ObjValue(s, [i \in DOMAIN s.props |-> IF i \in present THEN Some(ds[i].v) ELSE None]))
+
+\* "A one-of value is routed solely by its discriminator to the declared member (the discriminator
+\* being passed on or stripped according to the inlining flag) and is accepted exactly when that member
+\* accepts it."
+DenOneOf(s, raw) ==
+    IF raw.k # "map" THEN DNone
+    ELSE IF \E j \in 1..Len(raw.v) : ~GoStringKey(raw.v[j][1]) THEN DNone
+    ELSE LET dsc == Supplied(raw, s.field) IN
+         IF ~dsc.some THEN DNone
+         ELSE LET key == IF s.disc = "int" THEN DenInt(dsc.v, None) ELSE DenString(dsc.v) IN
+              IF key.d = "none" THEN DNone
+              ELSE IF key.d = "open" THEN DOpen
+              ELSE LET is == {i \in DOMAIN s.members : s.members[i][1] = key.v.v} IN
+                   IF is = {} THEN DNone
+                   ELSE LET m == s.members[CHOOSE i \in is : TRUE][2]
+                            d == Denotes(m, IF s.inlined THEN raw ELSE Without(raw, s.field))
+                        IN IF d.d # "some" THEN d
+                           ELSE IF d.v.k = "map" /\ ~s.inlined THEN DSome(SetPair(d.v, s.field, key.v))
+                           ELSE d
+
 \* row "any": nil-free trees of bool, any int/float width (normalised to int64/float64),
 \* string, slices, maps with keys of those kinds; everything else denotes nothing
 DenAny(raw) ==
@@ -148,6 +194,19 @@ Denotes(s, raw) ==
                     ELSE IF \E i \in 1..(2 * n) : all[i].d = "open" THEN DOpen
                     ELSE IF \E i, j \in 1..n : i # j /\ EqModRep(ks[i].v, ks[j].v) THEN DOpen   \* unspecified by C02
                     ELSE DSome(M("typed", [i \in 1..n |-> <<ks[i].v, ws[i].v>>]))
+      [] s.kind = "object" -> DenObject(s, raw)
+      [] s.kind = "oneof" -> DenOneOf(s, raw)
+      [] s.kind = "scope" -> Denotes(Unfold(s, VDepth(raw)), raw)
+
+\* ------------------------------------------------------------------ Presence (C03)
+\* the presence rules over the set D of properties that are set after defaulting, stated per rule kind
+Presence(s, D) ==
+    LET P == {s.props[i] : i \in DOMAIN s.props}
+        set(n) == n \in D
+    IN /\ \A p \in P : p.required => set(p.name)                                                         \* required
+       /\ \A p \in P : (\E i \in DOMAIN p.required_if : set(p.required_if[i])) => set(p.name)             \* required_if: any listed one set
+       /\ \A p \in P : (Len(p.required_if_not) > 0 /\ \A i \in DOMAIN p.required_if_not : ~set(p.required_if_not[i])) => set(p.name)   \* required_if_not: none of the listed set
+       /\ \A p \in P : set(p.name) => \A i \in DOMAIN p.conflicts : ~set(p.conflicts[i])                  \* conflicts
 
 \* ------------------------------------------------------------------ Satisfies
 \* the declared constraints, on a native value of the schema's type
@@ -172,6 +231,16 @@ Satisfies(s, v) ==
       [] s.kind = "map" ->
             /\ (s.min.some => s.min.v <= Len(v.v)) /\ (s.max.some => Len(v.v) <= s.max.v)
             /\ \A i \in 1..Len(v.v) : Satisfies(s.keys, v.v[i][1]) /\ Satisfies(s.values, v.v[i][2])
+      [] s.kind = "object" ->
+            \* no undeclared key; every property that is set satisfies its type and is not disabled; Presence
+            LET ps == NativeProps(s, v)
+                D == {s.props[i].name : i \in {j \in DOMAIN s.props : ps[j].some}}
+            IN /\ (s.layout = "map" => \A n \in KeyNames(v) : Declares(s, n))
+               /\ \A i \in DOMAIN s.props : ps[i].some => ~s.props[i].disabled /\ Satisfies(s.props[i].type, ps[i].v)
+               /\ Presence(s, D)
+      [] s.kind = "oneof" ->
+            LET n == OneOfNative(s, v) IN n.ok /\ Satisfies(n.m, n.w)
+      [] s.kind = "scope" -> Satisfies(Unfold(s, VDepth(v)), v)
 
 \* ------------------------------------------------------------------ native values of a schema's type
 RECURSIVE IsNative(_, _), IsAnyTree(_)
@@ -183,7 +252,7 @@ IsAnyTree(v) ==
       [] v.k = "map" ->
             /\ \A i \in 1..Len(v.v) : v.v[i][1].k \in {"bool", "str", "int", "float"} /\ IsAnyTree(v.v[i][1]) /\ IsAnyTree(v.v[i][2])
             /\ \A i, j \in 1..Len(v.v) : i # j => ~EqV(v.v[i][1], v.v[j][1])
-      [] v.k \in {"nil", "re", "junk"} -> FALSE
+      [] v.k \in {"nil", "re", "junk", "struct"} -> FALSE
 IsNative(s, v) ==
     CASE s.kind \in {"int", "enum_int"} -> v.k = "int" /\ v.rep = "int64" /\ FitsI64(v.v)
       [] s.kind = "float" -> v.k \in {"float", "fspecial"} /\ v.rep = "float64"
@@ -197,6 +266,20 @@ IsNative(s, v) ==
             /\ v.k = "map"
             /\ \A i \in 1..Len(v.v) : IsNative(s.keys, v.v[i][1]) /\ IsNative(s.values, v.v[i][2])
             /\ \A i, j \in 1..Len(v.v) : i # j => ~EqModRep(v.v[i][1], v.v[j][1])
+      [] s.kind = "object" ->
+            /\ ObjShapeOK(s, v)
+            /\ (s.layout = "map" => \A j \in 1..Len(v.v) : GoStringKey(v.v[j][1]))
+            /\ LET ps == NativeProps(s, v) IN \A i \in DOMAIN s.props : ps[i].some => IsNative(s.props[i].type, ps[i].v)
+      [] s.kind = "oneof" ->
+            \* a map-based member's mapping carrying the typed discriminator, or a member's struct
+            IF v.k = "map" THEN
+                 /\ v.rep = "string_any" /\ (\A j \in 1..Len(v.v) : GoStringKey(v.v[j][1]))
+                 /\ LET d == Supplied(v, s.field) IN
+                    d.some /\ NativeDisc(s, d.v) /\ MemberIdx(s, d.v) # 0
+                    /\ LET m == s.members[MemberIdx(s, d.v)][2] IN
+                       m.layout = "map" /\ IsNative(m, IF s.inlined THEN v ELSE Without(v, s.field))
+            ELSE v.k = "struct" /\ \E i \in DOMAIN s.members : s.members[i][2].layout = v.t /\ IsNative(s.members[i][2], v)
+      [] s.kind = "scope" -> IsNative(Unfold(s, VDepth(v)), v)
 
 \* the wire form of a native value (what Serialize has to emit)
 RECURSIVE WireOf(_, _)
@@ -206,6 +289,16 @@ WireOf(s, v) ==
       [] s.kind = "any" -> v
       [] s.kind = "list" -> L("any", [i \in 1..Len(v.v) |-> WireOf(s.items, v.v[i])])
       [] s.kind = "map" -> M("any_any", [i \in 1..Len(v.v) |-> <<WireOf(s.keys, v.v[i][1]), WireOf(s.values, v.v[i][2])>>])
+      [] s.kind = "object" ->
+            LET ps == NativeProps(s, v)
+                all == [i \in DOMAIN s.props |-> <<Str(s.props[i].name), IF ps[i].some THEN Some(WireOf(s.props[i].type, ps[i].v)) ELSE None>>]
+                set == SelectSeq(all, LAMBDA q : q[2].some)
+            IN M("string_any", [i \in DOMAIN set |-> <<set[i][1], set[i][2].v>>])
+      [] s.kind = "oneof" ->
+            LET n == OneOfNative(s, v)
+                w == WireOf(n.m, n.w)
+            IN IF Supplied(w, s.field).some THEN w ELSE SetPair(w, s.field, n.key)
+      [] s.kind = "scope" -> WireOf(Unfold(s, VDepth(v)), v)
 
 \* ------------------------------------------------------------------ the statement as expected outcomes
 DeclUnser(s, raw) ==
@@ -216,8 +309,26 @@ DeclUnser(s, raw) ==
 
 \* Validate / Serialize: the statement speaks about native values only; what they do with
 \* other Go values is not an exactness claim (C04: they must return)
-DeclValid(s, x) == IF IsNative(s, x) THEN (IF Satisfies(s, x) THEN OkU ELSE Rej) ELSE Unspec
-DeclSer(s, x) == IF IsNative(s, x) THEN (IF Satisfies(s, x) THEN Ok(WireOf(s, x)) ELSE Rej) ELSE Unspec
+\* C03 lists "no disabled property is in use" for the acceptance of a mapping; whether Validate /
+\* Serialize refuse a native value that uses a disabled property is left open (DESIGN appendix G)
+RECURSIVE UsesDisabled(_, _)
+UsesDisabled(s, v) ==
+    CASE s.kind \in ScalarKinds -> FALSE
+      [] s.kind = "list" -> \E i \in 1..Len(v.v) : UsesDisabled(s.items, v.v[i])
+      [] s.kind = "map" -> \E i \in 1..Len(v.v) : UsesDisabled(s.values, v.v[i][2])
+      [] s.kind = "object" ->
+            LET ps == NativeProps(s, v) IN
+            \E i \in DOMAIN s.props : ps[i].some /\ (s.props[i].disabled \/ UsesDisabled(s.props[i].type, ps[i].v))
+      [] s.kind = "oneof" -> LET n == OneOfNative(s, v) IN n.ok /\ UsesDisabled(n.m, n.w)
+      [] s.kind = "scope" -> UsesDisabled(Unfold(s, VDepth(v)), v)
+DeclValid(s, x) ==
+    IF ~IsNative(s, x) THEN Unspec
+    ELSE IF UsesDisabled(s, x) THEN Unspec
+    ELSE IF Satisfies(s, x) THEN OkU ELSE Rej
+DeclSer(s, x) ==
+    IF ~IsNative(s, x) THEN Unspec
+    ELSE IF UsesDisabled(s, x) THEN Unspec
+    ELSE IF Satisfies(s, x) THEN Ok(WireOf(s, x)) ELSE Rej
 
 Declared(s, op, x) ==
     CASE op = "unser" -> DeclUnser(s, x)
@@ -228,6 +339,7 @@ Declared(s, op, x) ==
 \* declared outcome (accept / reject / open) of every element below a container argument, as a tree
 \* [ok, kids] (list: one node per item; map: key node, value node, key node, ...): lets the harness
 \* name the position where code and statement first diverge (signature kind_at_fault)
+PropOf(s, n) == s.props[CHOOSE i \in DOMAIN s.props : s.props[i].name = n]
 RECURSIVE Sub(_, _, _)
 SubNode(s, op, x) == [ok |-> Declared(s, op, x).ok, kids |-> Sub(s, op, x)]
 Sub(s, op, x) ==
@@ -239,6 +351,15 @@ Sub(s, op, x) ==
                     ks == IF s.kind = "map" THEN s.keys ELSE s
                     ws == IF s.kind = "map" THEN s.values ELSE s
                 IN IF j % 2 = 1 THEN SubNode(ks, op, x.v[i][1]) ELSE SubNode(ws, op, x.v[i][2])]
+      [] s.kind = "object" /\ x.k = "map" ->
+            \* key node (is the key declared?), value node
+            [j \in 1..(2 * Len(x.v)) |->
+                LET i == (j + 1) \div 2
+                    key == x.v[i][1]
+                    known == GoStringKey(key) /\ Declares(s, key.v)
+                IN IF j % 2 = 1 THEN [ok |-> IF known THEN "yes" ELSE "no", kids |-> <<>>]
+                   ELSE IF known THEN SubNode(PropOf(s, key.v).type, op, x.v[i][2]) ELSE [ok |-> "maybe", kids |-> <<>>]]
+      [] s.kind = "scope" -> Sub(Unfold(s, VDepth(x)), op, x)
       [] OTHER -> <<>>
 
 \* ------------------------------------------------------------------ the invariants
